@@ -334,4 +334,61 @@ theorem closedPass_entry (lower : Bool) (bs : List Blk) (r : List XVal)
     rw [hoff, ← List.flatMap_id]
     exact getElem?_flatMap_offset vs id j k v hv (by simpa [hlen] using hk)
 
+/-! ### entry of a slot's block after the sweep -/
+
+theorem blockVals_entry (lower : Bool) (b : Blk) (v : List XVal) (hwf : WF b)
+    (hv : blockVals lower b = some v) (c i : Nat) (hc : c < b.size) (hi : i < b.n) :
+    v[c * b.n + i]? = scaledBound lower b c i := by
+  unfold blockVals at hv
+  split at hv
+  · simp at hv
+  · rename_i hw
+    simp only [Option.some.injEq] at hv
+    subst hv
+    -- nothing written: the side is `None`, the entry keeps the fill ∓inf
+    have hside : sideOf lower b = .none := by
+      unfold blockWrite at hw
+      split at hw
+      · simp at hw
+      · rename_i hs
+        cases hsd : sideOf lower b with
+        | none => rfl
+        | sc x => simp [hsd, sideVals] at hs
+        | vec xs =>
+          simp only [hsd, sideVals] at hs
+          split at hs
+          · simp at hs
+          · split at hs <;> simp at hs
+        | ts1 t vs =>
+          simp only [hsd, sideVals] at hs
+          split at hs
+          · simp at hs
+          · split at hs
+            · cases h' : interpScalarX b.mode (toKnots t vs) (fillOf lower) (fillOf lower) (b.times.headD 0) <;>
+                simp [h'] at hs
+            · cases h' : interpArrayX b.mode (toKnots t vs) (fillOf lower) (fillOf lower) b.times <;>
+                simp [h'] at hs
+        | ts2 t rows =>
+          simp only [hsd, sideVals] at hs
+          split at hs
+          · simp at hs
+          · split at hs
+            · simp only [Option.map_eq_some_iff] at hs
+              obtain ⟨_, _, h''⟩ := hs
+              simp at h''
+            · simp only [Option.map_eq_some_iff] at hs
+              obtain ⟨_, _, h''⟩ := hs
+              simp at h''
+      · split at hw
+        · simp at hw
+        · split at hw <;> simp at hw
+    rw [List.getElem?_replicate]
+    have := index_lt b c i hc hi
+    simp only [this, if_true, scaledBound, hside, sideAt, Option.map_some]
+    cases lower <;> rfl
+  · rename_i vs hw
+    simp only [Option.some.injEq] at hv
+    subst hv
+    exact blockWrite_entry b _ _ _ hwf hw c i hc hi
+
 end RtcVerif.C05
